@@ -303,16 +303,9 @@ func (sc *collection) doBuild(ctx context.Context) (Provider, error) {
 	default:
 	}
 
-	var err error
+	// The root scope's initializers run after the singletons exist (phase 7): they may depend on them
 	rootCtx := context.Background()
-	p.rootScope, err = newScope(p, nil, rootCtx, nil)
-	if err != nil {
-		return nil, &BuildError{
-			Phase:   "scope-creation",
-			Details: "failed to create root scope",
-			Cause:   err,
-		}
-	}
+	p.rootScope = newScopeWithoutInitializers(p, nil, rootCtx, nil)
 
 	// Phase 6: Create singletons with context propagation
 	if err := p.createAllSingletonsWithContext(ctx); err != nil {
@@ -329,6 +322,25 @@ func (sc *collection) doBuild(ctx context.Context) (Provider, error) {
 		return nil, &BuildError{
 			Phase:   "singleton-creation",
 			Details: "failed to initialize singletons",
+			Cause:   err,
+		}
+	}
+
+	// Phase 7: Run the scope initializers of the root scope
+	if err := p.rootScope.runInitializers(); err != nil {
+		// Clean up partially created provider
+		closeErr := p.Close()
+		if closeErr != nil {
+			return nil, &BuildError{
+				Phase:   "cleanup",
+				Details: "failed to clean up partially created provider",
+				Cause:   closeErr,
+			}
+		}
+
+		return nil, &BuildError{
+			Phase:   "scope-creation",
+			Details: "failed to create root scope",
 			Cause:   err,
 		}
 	}
